@@ -55,8 +55,13 @@ func digitsTooFew(p rlwe.Parameters, kp keyParams, level int) bool {
 	return false
 }
 
-// knownKS classifies the key-switch input classes with a known defect.
-func knownKS(p rlwe.Parameters, kp keyParams, level int, isNTT bool) string {
+// knownKS: no listed finding is left (all fixed in /repo): every class is judged under the generic
+// signatures. formerKS still names the classes that used to fail, for the coverage of the regression
+// leaves in known/*.
+func knownKS(p rlwe.Parameters, kp keyParams, level int, isNTT bool) string { return "" }
+
+// formerKS classifies the key-switch input classes that had a defect.
+func formerKS(p rlwe.Parameters, kp keyParams, level int, isNTT bool) string {
 	ciOdd61 := false
 	if p.RingType() == ring.ConjugateInvariant && p.LogN()%2 == 1 && isNTT && kp.levelP >= 0 {
 		for _, q := range p.Q()[:level+1] {
@@ -117,7 +122,7 @@ func knownScenario(rt ring.Type, logN int, ch rk.Chain, class string) engine.Sce
 		}
 		level := kp.levelQ - c.ChooseFree(2, "ctLevel")
 		isNTT := c.ChooseFree(2, "IsNTT") == 0
-		k := knownKS(p, kp, level, isNTT)
+		k := formerKS(p, kp, level, isNTT)
 		if k == "" {
 			k = "none(control)"
 		}
